@@ -3,6 +3,9 @@
 TECH = "deterministic simulation with fault injection: "
 
 ENGINES = [
+    {"name": "mdsim", "path": "vsim/engines/mdsim.py", "serves_properties": ["C12", "C13", "C20"],
+     "kind_free_text": "call-granularity simulation of Digital Metadata (+RF) writers and readers on one tree with a "
+                       "virtual wall clock and seeded readdir order"},
     {"name": "rfsim", "path": "vsim/engines/rfsim.py",
      "serves_properties": ["C01", "C04", "C05", "C06", "C07", "C08", "C11", "C19"],
      "kind_free_text": "call-granularity session simulator: writer sessions as forked nodes parked at every API-call "
@@ -83,6 +86,35 @@ CHECKS = {
                 "every call of seeded histories in all writer modes, including block writes that the extension splits.",
         "note": _RFNOTE + " States after a refused entry into a finalized period are excluded, as the property says.",
     },
+    "C12": {
+        "engine": "mdsim", "level": "exploration", "design_ref": "DESIGN.md 5/C12",
+        "technique": TECH + "call-level histories of metadata writes, duplicate attempts, writer reopen and reads on old/new readers against an ordered-map model",
+        "text": "Ascending write sequences in all three forms (incl. the documented length-N distribution rule and its "
+                "traps), duplicate attempts, reopen, and reads with ranges/columns/fill methods on reader objects of "
+                "different ages; every read must return exactly the model's items, ascending, values deep-equal; ffill "
+                "adds exactly the latest item at or before the start; bounds are min/max.",
+        "note": "decided by seeded sampling against the model; the simulator adds reader-age histories, readdir order and "
+                "the clock. Field values keep one type per field only by chance - read_flatdict on inhomogeneous shapes is "
+                "not judged. Batches whose first element is a duplicate burn the rest of the batch (not judged).",
+    },
+    "C13": {
+        "engine": "mdsim", "level": "exploration", "design_ref": "DESIGN.md 5/C13",
+        "technique": TECH + "monitored placement invariant after every metadata write of the simulated histories (exact integer oracle, raw h5py scan)",
+        "text": "After every write every stored group is located with raw h5py: it must sit in <prefix>@T.h5 for the exact "
+                "T, in the exact subdirectory, nowhere else, and reader.read(k,k) must return it. Indices are biased to "
+                "k = ceil(j*cadence*n/d) and neighbours.",
+        "note": "input-space sampling inside the simulation; the simulator adds nothing beyond reader-age histories - said plainly.",
+    },
+    "C20": {
+        "engine": "mdsim", "level": "exploration", "design_ref": "DESIGN.md 5/C20",
+        "technique": TECH + "call-granularity interleavings of metadata/RF writes with reader construction and queries, virtual clock jumps, whole-tree fingerprint around every read-only call",
+        "text": "Right after each metadata write an older and a new reader must show it in bounds, range reads and "
+                "read_latest; around EVERY read-only call (metadata reader, RF reader incl. read_metadata, lsdrf) the "
+                "fingerprint of the whole tree (paths, sizes, SHA-256, mtime_ns, inode) must be unchanged, with the wall "
+                "clock jumped by up to days so the metadata reader's age test is always true.",
+        "note": "readers use default arguments (accept_empty=True); reader-side I/O faults are not injected (not in the "
+                "quantifier); interleaving is at call granularity as the property states.",
+    },
     "C02": {
         "engine": "crashsim", "level": "fault_enumeration", "design_ref": "DESIGN.md 5/C02, 3.2-3.4",
         "technique": TECH + "lock-step recorder, every FS-op boundary as crash state (+torn writes, real SIGKILL cross-check), seeded workloads",
@@ -123,7 +155,7 @@ NOT_APPLICABLE = {
     "C03": "pure integer function of (index, n, d): no state, I/O, schedule, clock or fault for a simulator to vary; "
            "deciding it is input enumeration or proof, i.e. another technique (DESIGN.md section 6)",
 }
-for _p in ("C12", "C13", "C14", "C15", "C16", "C17", "C18", "C20"):
+for _p in ( "C14", "C15", "C16", "C17", "C18"):
     NOT_APPLICABLE.setdefault(_p, _PENDING)
 
 NOTES = ("All checks: bin/check <id> [--tier quick|thorough] [--replay file]; exit 0 held / 1 VIOLATION / 2 harness "
